@@ -196,12 +196,11 @@ void sh_maybe()
   for (int cat = 0; cat < 3; ++cat)
     for (int m = 0; m < 4; ++m)
     {
-      if (!vrt::begin("optional::maybe_void/to_container/to_exception<cat,m>", cat, m))
-        continue;
-      auto desc = [&] { return std::string("optional::maybe_void, to_container, to_exception on ") + show_opt(m) + " as " + cat_name(cat); };
-      vrt::nontrivial(m != 0);
-      SAMPLE();
+      if (vrt::begin("optional::maybe_void<cat,m>", cat, m))
       {
+        auto desc = [&] { return std::string("optional::maybe_void(") + show_opt(m) + " as " + cat_name(cat) + ", f)"; };
+        vrt::nontrivial(m != 0);
+        SAMPLE();
         probe p;
         OD o = mk_od(m);
         auto const tr = [&p](D a) { p.hit(a.v, a.ok()); };
@@ -215,8 +214,12 @@ void sh_maybe()
         if (cat < 2)
           CK(code(o) == m, "optional::maybe_void:source_modified", "lvalue source is now %s", show_opt(code(o)).c_str());
       }
-      if (cat != 0) // to_container(const lvalue optional) does not compile (container::make binds a non-const reference): see report
+      // to_container(const lvalue optional) does not compile (container::make binds a non-const reference): see report
+      if (cat != 0 && vrt::begin("optional::to_container<cat,m>", cat, m))
       {
+        auto desc = [&] { return std::string("optional::to_container<std::vector<D>>(") + show_opt(m) + " as " + cat_name(cat) + ")"; };
+        vrt::nontrivial(m != 0);
+        SAMPLE();
         OD o = mk_od(m);
         std::vector<D> const r =
             cat == 1 ? fcppt::optional::to_container<std::vector<D>>(o) : fcppt::optional::to_container<std::vector<D>>(std::move(o));
@@ -225,7 +228,10 @@ void sh_maybe()
         if (cat < 2)
           CK(code(o) == m, "optional::to_container:source_modified", "lvalue source is now %s", show_opt(code(o)).c_str());
       }
+      if (vrt::begin("optional::to_exception<cat,m>", cat, m))
       {
+        auto desc = [&] { return std::string("optional::to_exception(") + show_opt(m) + " as " + cat_name(cat) + ", ()->my_exc{42})"; };
+        vrt::nontrivial(m == 0);
         probe p;
         OD o = mk_od(m);
         auto const mk = [&p]
